@@ -140,6 +140,16 @@ CHECKS = {
             'group within one shared study, exactly-once feedback, counters, completion, summary, best trial, no crash, no '
             'deadlock.',
             BASE_NOTE),
+    'C17': ('E4-sched', 'model_checking',
+            'bounded-exhaustive enumeration of well-nested enter/exit programs against stack models + schedule exploration of two threads (event granularity and statement granularity, preemption bounded)',
+            'All tree shapes with up to 3 scopes over each of 16 scoped managers (every argument value, every block left '
+            'normally, by Exception or by BaseException) and over every pair of managers: the observation of every manager '
+            'equals its documented nesting rule at every point and the full observation vector is restored after every exit; '
+            'process-wide managers: restoration only. Two threads running such programs under the controlled scheduler: all '
+            'schedules with <= 2 preemptions at event granularity and <= 1 preemption at statement granularity inside the '
+            'thread-local / flags / contextual / detour / permission / dynamic-evaluation modules; each thread must observe '
+            'what it observes alone.',
+            BASE_NOTE),
     'C18': ('E2-enum', 'model_checking',
             'bounded-exhaustive enumeration of signatures x call patterns, differential against the interpreter',
             'Every signature with up to 4 (5 thorough) parameters (required / defaulted positionals, *args, keyword-only, '
